@@ -195,3 +195,18 @@ def run(ctx):
         positions = [name for name, _ in gen.binding_order(sk, pk)]
         p, _, _ = pg.make(scope_kind=sk, pat_kind=pk, widths={q: rng.choice((1, 2, 5, 6)) for q in positions}, n=n)
         handle(p, 'rnd|' + A.prop_shape(p), False)
+        if n % 4 == 0 and len(positions) >= 2:
+            # the same (alias-free) disjunction in two positions of one property: channels may repeat across positions
+            pos = A.prop_positions(p)
+            src = gen.pick(rng, [q for q in positions if pos[q][0] == 'disj'] or positions)
+            dst = gen.pick(rng, [q for q in positions if q != src])
+
+            def bare(ev):
+                if ev[0] == 'disj':
+                    return ('disj', tuple(bare(k) for k in ev[1]))
+                pred = ev[3] if (ev[3] is not None and not A.all_vars(ev[3])) else None
+                return ('ev', ev[1], None, pred)
+            events = {q: bare(ev) for q, ev in pos.items()}
+            events[dst] = events[src]
+            p2 = gen.assemble(sk, pk, events, p[3][4], p[1])
+            handle(p2, f'same-event-twice|{sk}|{pk}|{src}->{dst}|{len(A.simple_events(events[src]))}', False)
